@@ -41,9 +41,14 @@ def table(active):
 def _table_check():
     viol = []
     n = 0
-    for L in range(1, 5):
+    for L, poison in [(L, p_) for L in range(1, 5) for p_ in (False, True)]:
         for seq in itertools.product((True, False), repeat=L):
             lib.reset_library()
+            if poison:
+                # whatever the root held before (an application that tuned a time-out, a test that poked it): a switch
+                # installs the COMPLETE table
+                for k_, m_ in enumerate(gconfig.CONFIG_MEMBERS):
+                    setattr(gconfig.GeckoConfig, m_, 7000 + k_)
             loop = VLoop(Chooser())
             VNet(loop)
 
